@@ -3,17 +3,25 @@
    scripts as abstract DDL), Db/SqlInterp.v (interpreter of that DDL); Gen/DbTables.v is regenerated from
    pkg/database on every run.
 
-   create_complete_ordered (design statement:  exec [] (create m) = Ok (catalog of m)  for every acyclic m) is
-   NOT proved as one theorem.  Proved parts: the depth fix-point (full), each-table-exactly-once (full, for the
-   (line, name) order of the current source), and the refutation for the line-map order.  That every column /
-   type / key / reference is in its CREATE TABLE and that a table follows what it references is tied by the
-   interpreted correspondence only (oracle + Coq interpreter on every generated case).
-   delta_sound is false of the current source; the refuted edit kinds are below, delta_identity is proved in
-   full; a general delta_sound_partial (soundness for all pairs without those edit kinds) is not proved. *)
+   create_complete_ordered is PROVED in full (C16_create_complete_ordered): exec on the empty catalog accepts the
+   creation script and builds exactly the model's schema; the interpreter rejects a foreign key to a table that
+   is not there yet, so this carries the ordering clause (argument: C16_depth_is_longest_path).
+   delta_sound is FALSE of the current source (four edit kinds, refuted below).  Proved: C16_delta_identity (full)
+   and C16_delta_sound_tables_partial + corollaries: every pair of versions whose shared tables are declared the
+   same (up to source position / column order) - tables added with arbitrary references, tables dropped.
+   NOT proved (kept here as the target):
+     delta_sound_partial : forall old new, wf old -> wf new -> edits_in_scope old new = true ->
+        exec empty (create old ++ delta old new) = Ok c /\ forall tb in new, tab_ok c tb
+     with edits_in_scope = no retained column (1) gains ~autoinc, (2) is ~autoinc in both versions with a changed
+     primitive, (3) keeps a reference whose target column changes its SQL type, (4) is dropped while a column of the
+     old version refers to it.  Missing: the invariant for column-level statements on a retained table (ADD / DROP
+     COLUMN, ALTER TYPE, constraint replacement rewrite one entry in the middle of the catalog; the lemmas here only
+     cover appending a table) and, for clause "exactly", a weaker col_ok that does not constrain sequence defaults
+     (dropping ~autoinc leaves the default in place).  Those edit kinds are tied by the interpreted correspondence. *)
 From Coq Require Import String List NArith PArith Bool Permutation.
 Import ListNotations.
 Require Import Verif.Db.Depth Verif.Db.DepthProps Verif.Db.Script Verif.Db.SqlInterp Verif.Gen.DbTables
-  Verif.Db.Tables Verif.Db.ScriptProps.
+  Verif.Db.Tables Verif.Db.ScriptProps Verif.Db.CatalogProps Verif.Db.CreateProps Verif.Db.DeltaProps.
 
 (* ---- obligations against the current source (regenerated table) ---- *)
 Theorem C16_source_shape :
@@ -73,6 +81,21 @@ Example C16_depth_unorderable_placed : forall ord, ord = id_ord \/ ord = rev_ord
 Proof. exact depth_unorderable_placed. Qed.
 
 (* ---- creation script ---- *)
+(* HEADLINE: wf = table names distinct + every reference names an existing column of an existing table; wf_cols =
+   column names distinct per table; is_depth = acyclic.  cat_matches m cat = no table twice, and every table of m
+   is in cat with exactly its columns (Permutation of names), each column typed as the model says (col_ok: mapped
+   primitive / bigint + sequence default for ~autoinc / the type of the referenced column), the ~pk columns as key,
+   one foreign key per reference.  Line numbers are unconstrained (equal ones included). *)
+Theorem C16_create_complete_ordered : forall m d ord fuel,
+  wf m -> wf_cols m -> is_depth m d -> perm_oracle ord -> (length m < fuel)%nat ->
+  exists l cat, create depth_stop table_order column_order fuel ord m = Ok l /\ exec empty_cat l = XOk cat /\
+    cat_matches m cat /\ Permutation (cat_names cat) (map tname m).
+Proof. exact (create_complete_ordered depth_stop). Qed.
+Print Assumptions C16_create_complete_ordered.
+
+Example C16_create_hypotheses_met : wf nv3 /\ wf_cols nv3 /\ is_depth nv3 nv_d3.
+Proof. pose proof nv_hypotheses as H. tauto. Qed.
+
 (* with the order the CURRENT source uses (C16_source_shape) every table is defined exactly once *)
 Theorem C16_create_each_table_once_partial : forall m d ck ord fuel,
   wf m -> is_depth m d -> perm_oracle ord -> (length m < fuel)%nat ->
@@ -100,6 +123,55 @@ Print Assumptions C16_delta_identity_changes_nothing.
 (* non-vacuity: the delta of a model with itself does run *)
 Example C16_delta_identity_runs : delta depth_stop delta_cfg column_order 4 id_ord ex_model ex_model = Ok [].
 Proof. vm_compute. reflexivity. Qed.
+
+(* delta_sound, the proved part: tables added / dropped, shared tables declared the same.  cat0 is any catalog
+   holding the old schema and none of the added tables. *)
+Theorem C16_delta_sound_tables_partial : forall old new dn ord fuel cat0,
+  wf old -> wf new -> wf_cols old -> wf_cols new -> is_depth new dn -> perm_oracle ord ->
+  (length new < fuel)%nat -> (exists sto, depth_map depth_stop fuel ord old = Ok sto) ->
+  only_tables_change old new = true -> cat_matches old cat0 ->
+  (forall nt, In nt new -> find_table old (tname nt) = None -> ~ In (tname nt) (cat_names cat0)) ->
+  exists l cat1, delta depth_stop delta_cfg column_order fuel ord old new = Ok l /\ exec cat0 l = XOk cat1 /\
+    cat_matches new cat1 /\ (forall x, In x (cat_names cat1) <-> In x (cat_names cat0) \/ In x (map tname new)).
+Proof. exact (delta_sound_tables_partial depth_stop). Qed.
+Print Assumptions C16_delta_sound_tables_partial.
+
+Theorem C16_create_then_delta_partial : forall old new dold dn ord fuel,
+  wf old -> wf new -> wf_cols old -> wf_cols new -> is_depth old dold -> is_depth new dn -> perm_oracle ord ->
+  (length old < fuel)%nat -> (length new < fuel)%nat -> only_tables_change old new = true ->
+  exists lc ld cat1, create depth_stop table_order column_order fuel ord old = Ok lc /\
+    delta depth_stop delta_cfg column_order fuel ord old new = Ok ld /\
+    exec empty_cat (lc ++ ld) = XOk cat1 /\ cat_matches new cat1 /\
+    (forall x, In x (cat_names cat1) <-> In x (map tname old) \/ In x (map tname new)).
+Proof. exact (create_then_delta_partial depth_stop). Qed.
+Print Assumptions C16_create_then_delta_partial.
+
+Theorem C16_delta_chain_partial : forall v1 v2 v3 d1 d2 d3 ord fuel,
+  wf v1 -> wf v2 -> wf v3 -> wf_cols v1 -> wf_cols v2 -> wf_cols v3 ->
+  is_depth v1 d1 -> is_depth v2 d2 -> is_depth v3 d3 -> perm_oracle ord ->
+  (length v1 < fuel)%nat -> (length v2 < fuel)%nat -> (length v3 < fuel)%nat ->
+  only_tables_change v1 v2 = true -> only_tables_change v2 v3 = true ->
+  (forall nt, In nt v3 -> find_table v2 (tname nt) = None -> find_table v1 (tname nt) = None) ->
+  exists lc l12 l23 cat3, create depth_stop table_order column_order fuel ord v1 = Ok lc /\
+    delta depth_stop delta_cfg column_order fuel ord v1 v2 = Ok l12 /\
+    delta depth_stop delta_cfg column_order fuel ord v2 v3 = Ok l23 /\
+    exec empty_cat (lc ++ l12 ++ l23) = XOk cat3 /\ cat_matches v3 cat3.
+Proof. exact (delta_chain_partial depth_stop). Qed.
+Print Assumptions C16_delta_chain_partial.
+
+(* non-vacuity: a three-version history (a table with two references added, then a table referring to a reference
+   column; the shared table moved and its columns swapped) meets every hypothesis, and its delta is not empty *)
+Example C16_delta_hypotheses_met :
+  wf nv1 /\ wf nv2 /\ wf nv3 /\ wf_cols nv1 /\ wf_cols nv2 /\ wf_cols nv3 /\
+  is_depth nv1 nv_d1 /\ is_depth nv2 nv_d2 /\ is_depth nv3 nv_d3 /\
+  only_tables_change nv1 nv2 = true /\ only_tables_change nv2 nv3 = true /\
+  (forall nt, In nt nv3 -> find_table nv2 (tname nt) = None -> find_table nv1 (tname nt) = None).
+Proof. exact nv_hypotheses. Qed.
+Example C16_delta_not_empty :
+  delta depth_stop delta_cfg column_order 4 id_ord nv1 nv2 =
+  Ok [CreateTable 2%positive [(12%positive, TInteger); (13%positive, TBigint); (14%positive, TVarchar 30)] [12%positive]
+        [(13%positive, (1%positive, 10%positive)); (14%positive, (1%positive, 11%positive))]].
+Proof. exact nv_delta_runs. Qed.
 
 (* repaired edit kinds: false of the guard variants the repository had, true of the current ones *)
 Theorem C16_delta_retarget_refuted :
